@@ -5,6 +5,7 @@ import LettreVerif.Model.Date
 import LettreVerif.Spec.StructuredDec
 import LettreVerif.Model.MailboxEnc
 import LettreVerif.Model.Rfc2231Enc
+import LettreVerif.Model.DateText
 namespace LV.Driver.C17
 open LV LV.Driver LV.Mailbox LV.Driver.C16
 
@@ -201,10 +202,40 @@ def dateOp : List String → String
       if back != secs then propfail "date-does-not-read-back-to-the-second" else
       let v := (blk.drop 6).take (blk.length - 8)
       if v.drop (v.length - 6) != str " +0000" then propfail "zone-not-rendered-as-+0000" else
-      let m := str (Date.render (Date.civil t))
+      let m := DateText.renderB (Date.civil t)
       if Date.toSecs (Date.civil t) != t then s!"MISMATCH date-model-roundtrip"
+      else if str (Date.render (Date.civil t)) != m then s!"MISMATCH date-render-forms"
+      -- the text is read back by the parser model too (`Props/C17.lean`: `date_header_roundtrip`)
+      else if (DateText.parseHeader m).map Date.toSecs != some t then s!"MISMATCH date-parse-model"
       else if m == v then "ok" else mismatch "date" m
     | _, _ => "BADLINE"
+  | l => if l.contains "PANIC" then propfail "panic" else "BADLINE"
+
+/-- ASCII white space, as `str::trim` sees it on an ASCII string -/
+def isAsciiWs (b : Byte) : Bool := b == 32 || (9 ≤ b.toNat && b.toNat ≤ 13)
+
+/-- `dparse <text> | ok:<secs>|err`: `Date::parse` against the parser model. `HttpDate::from_str` rejects non-ASCII text,
+    trims, and tries three forms; only the IMF-fixdate form (29 octets) is modelled, other lengths are not compared. -/
+def dparseOp : List String → String
+  | [text, res] =>
+    if res == "PANIC" then propfail "panic" else
+    match ofHex text with
+    | none => "BADLINE"
+    | some v =>
+      if res == "notutf8" then "ok" else
+      let s := if v.drop (v.length - 5) == [43, 48, 48, 48, 48] && v.length ≥ 5 then v.take (v.length - 5) ++ [71, 77, 84] else v
+      if s.any (fun b => 128 ≤ b.toNat) then (if res == "err" then "ok non-ascii" else s!"MISMATCH dparse model=err") else
+      let x := ((s.dropWhile isAsciiWs).reverse.dropWhile isAsciiWs).reverse
+      if x.length != 29 then "ok other-length" else
+      let m := match DateText.parseImf x with
+        | some c => if DateText.isValid c then s!"ok:{Date.toSecs c}" else "err"
+        | none => "err"
+      -- a value that is accepted reads back a date that prints as this very text (nothing is silently reinterpreted)
+      if res.startsWith "ok:" && m == res then
+        (match (res.drop 3).toString.toNat? with
+         | some t => if DateText.stem (Date.civil t) ++ [71, 77, 84] == x then "ok accepted" else propfail "accepted-date-text-prints-differently"
+         | none => "BADLINE")
+      else if m == res then "ok rejected" else s!"MISMATCH dparse model={m}"
   | l => if l.contains "PANIC" then propfail "panic" else "BADLINE"
 
 /-- the field name of each text header (`text_header!` in src/message/header/textual.rs) -/
